@@ -157,8 +157,16 @@ func blockBelowTip(n *chainlib.Node, k int) ([]byte, int64, error) {
 func (e *Exec) opMine(kv map[string]string) string {
 	w := e.w
 	k := atoi(kv["trunc"])
-	if !bytes.Equal(w.P.S.GetLatestBlockid(), w.R.S.GetLatestBlockid()) {
+	// (the producer's state may lag behind its ledger — a peer block confirmed but not yet played: the round walks first)
+	if !bytes.Equal(w.P.L.GetMeta().TipBlockid, w.R.S.GetLatestBlockid()) {
 		return "error:tips-differ"
+	}
+	// recovering: the round walks the producer's state (truncation, or state behind the ledger); State.Walk re-admits the
+	// rolled-back pending transactions in a goroutine that runs alongside packBlock
+	recovering := k > 0
+	if !bytes.Equal(w.P.S.GetLatestBlockid(), w.P.L.GetMeta().TipBlockid) {
+		e.out.Count("mine:state-behind-ledger")
+		recovering = true
 	}
 	h0 := w.P.L.GetMeta().TrunkHeight
 	if k < 0 || int64(k) > h0 {
@@ -191,7 +199,8 @@ func (e *Exec) opMine(kv map[string]string) string {
 		w.Cons.truncateTo = target
 		e.out.Count("mine:truncating")
 	}
-	w.Cons.storage, _ = json.Marshal(map[string]interface{}{"curTerm": 1 + wantH/3, "curBlockNum": wantH % 3})
+	curTerm, curBlockNum := 1+wantH/3, 1+wantH%3
+	w.Cons.storage, _ = json.Marshal(map[string]interface{}{"curTerm": curTerm, "curBlockNum": curBlockNum})
 	w.Net.drain()
 	nconf := len(w.Cons.confirmed)
 	merr := w.Miner.VerifMining(w.P.Ctx)
@@ -227,6 +236,9 @@ func (e *Exec) opMine(kv map[string]string) string {
 	}
 	if got := w.P.L.GetMeta().TrunkHeight; got != wantH {
 		e.violate("block-height-wrong", fmt.Sprintf("after the round the producer's trunk has height %d, expected %d", got, wantH))
+	}
+	if blk.CurTerm != curTerm || blk.CurBlockNum != curBlockNum {
+		e.violate("consensus-storage-lost", fmt.Sprintf("ProcessBeforeMiner handed term %d / block number %d to the miner, the block carries %d / %d", curTerm, curBlockNum, blk.CurTerm, blk.CurBlockNum))
 	}
 	// ---- award, coinbase count, IsValidTx / VerifyBlock on the producer's own ledger
 	e.checkBlockShape(blk, "mining")
@@ -354,10 +366,11 @@ func (e *Exec) opMine(kv map[string]string) string {
 	}
 	sort.Ints(left)
 	sort.Ints(want)
-	if k == 0 && idsStr(left) != idsStr(want) {
+	if !recovering && idsStr(left) != idsStr(want) {
 		e.violate("pool-membership", fmt.Sprintf("after the mined block the pending set is %v, expected %v", left, want))
-	} else if k > 0 && !subset(left, want) {
-		// (after a truncation pending transactions that depended on a cut-off block are dropped)
+	} else if recovering && !subset(left, want) {
+		// (pending transactions that depended on a cut-off block, or that the block's timer transaction made stale, are
+		// dropped when the walk re-admits them)
 		e.violate("pool-membership", fmt.Sprintf("after the mined block the pending set is %v, not a subset of %v", left, want))
 	}
 	// ---- after a truncation: a fresh node replays the producer's whole trunk from genesis
